@@ -13,6 +13,7 @@ from .tlib import lift, zero_index
 
 _BOUND = {}
 _SUMS = {}
+SUM_INFO = {}  # id of the sum constant -> (dims, bound variables, body term)   (used by jets)
 _DEPTH = [0]
 
 
@@ -39,12 +40,15 @@ def sum_term(dims, body, kind="sum", sort=None):
         _DEPTH[0] -= 1
     key = (kind, tuple(str(f) for d in dims for f in d.factors), b.sexpr())
     if key not in _SUMS:
-        _SUMS[key] = z3.Const(core.fresh_name(kind), sort or b.sort())
+        c = z3.Const(core.fresh_name(kind), sort or b.sort())
+        _SUMS[key] = c
+        SUM_INFO[c.get_id()] = (dims, [v for comp in idx for v in comp], b)
     return _SUMS[key]
 
 
 def reset():
     _SUMS.clear()
+    SUM_INFO.clear()
 
 
 core.RESET_HOOKS.append(reset)
